@@ -90,6 +90,11 @@ for line in sys.stdin:
 """
 
 
+async def _ret(log, a):
+    log.append(a)
+    return 0
+
+
 def run(prop, tier):
     logging.disable(logging.WARNING)
     import warnings
@@ -150,7 +155,17 @@ def run(prop, tier):
         add(ast.parse(reformat(src)).body[0].value, "reformatted", ci)
         add(annotate(n1, ci), "annotated-copy", ci)
         add(codec.dec(t), "constructed-nodes", ci)
-        nroutes += 4
+        # an ast that has been hashed, then copied and edited, must hash like a fresh ast of the edited structure
+        for cp, route in ((copy.deepcopy(n1), "hashed-deepcopy-edited"), (copy.copy(n1), "hashed-shallowcopy-edited")):
+            if isinstance(cp, ast.Call) and route.startswith("hashed-shallow"):
+                cp.args = list(cp.args) + [ast.Constant(value=7)]
+            else:
+                for x in ast.walk(cp):
+                    if isinstance(x, ast.Name) and x.id not in STREAM_OPS and x.id not in ("First", "Count", "len"):
+                        x.id = x.id + "_r"
+            add(cp, route, ci)
+            add(ast.parse(ast.unparse(cp)).body[0].value, "fresh-parse-of-edited", ci)
+        nroutes += 8
         if is_chain(t) and t["k"] == "call":
             # an edited query may be one the operators refuse (C10's business): that route is skipped
             for how in ("str", "ast", "qmd"):
@@ -163,6 +178,17 @@ def run(prop, tier):
                         s = getattr(s, op)(f)
                     add(s.query_ast, "api-" + how, ci)
                     nroutes += 1
+                    if how == "qmd":
+                        # what the executor receives after the stream's ast has been hashed
+                        log = []
+                        s2 = s.MetaData({})
+                        calc_ast_hash(s2.query_ast)
+                        try:
+                            s2.value(executor=lambda a, title=None: _ret(log, a))
+                            if log:
+                                add(log[0], "executor-ast-after-hashing", ci)
+                        except Exception:
+                            pass
                 except Exception:
                     refused[0] += 1
             if ci in fluent:
